@@ -201,6 +201,35 @@ def malformed_fn(ctx, case):
     ctx.evaluations += max(cnt - 1, 0)
 
 
+def long_message_fn(ctx, case):
+    """the embedder raised the item-size limit and the signed message is longer than the default limit: quorums pass / fail as ever"""
+    mlen, limit, m, n = case
+    seed = ctx.seed
+    _, _, _, seeds = setup(seed)
+    f1 = (env.sym(seed, 'ms.long', 32) * (mlen // 32 + 1))[:mlen]
+    cache = {'sigfield1': f1}
+    keys = [refed.public_key(seeds[('L', i)]) for i in range(n)]
+    keypush = b''.join(push(k) for k in keys)
+    cnt = 0
+    for signers in itertools.permutations(range(n), m):
+        for spoil in (None, 0):
+            cnt += 1
+            sigs = [refed.sign(seeds[('L', i)], f1) for i in signers]
+            if spoil is not None and sigs:
+                sigs[spoil] = refed.sign(seeds[('O', 0)], f1)
+            r, st, _ = run(b''.join(push(x) for x in sigs) + keypush + op('CHECK_MULTISIG') + bytes([0, m, n]), cache, stack_max_item_size=limit)
+            ctx.ran(); ctx.trans(m + n + 1)
+            fits = mlen <= limit
+            exp = ('true' if spoil is None or not sigs else 'false') if fits else 'raise'
+            got = 'raise' if r is not None else ('true' if st == [TRUE] else 'false' if st == [FALSE] else 'other')
+            ctx.state(('long', mlen, limit, m, n, signers, spoil))
+            ctx.outcome('long:%s->%s' % (exp, got))
+            if got != exp:
+                ctx.violation({'op': 'CHECK_MULTISIG', 'kind': 'accepts' if got == 'true' else 'rejects', 'why': 'message longer than the default item limit'},
+                              f'message {mlen} bytes, stack_max_item_size {limit}, {m}-of-{n} signers {signers} spoiled {spoil}: expected {exp}, got {got} {r!r}')
+    ctx.evaluations += max(cnt - 1, 0)
+
+
 def builder_fn(ctx, case):
     """make_multisig_lock + witnesses through run_auth_scripts"""
     n, m, perm = case
@@ -278,6 +307,9 @@ def blocks(tier, seed):
               'signature orders', nshards=len(fcases)),
         Block('sequences_x_keyorders', cases, case_fn,
               'every ordered token sequence x key order x allowed in {01,00}', nshards=min(len(cases), 256), backstop=7200),
+        Block('long_messages_raised_item_limit', [(ml, lim, m, n) for ml, lim in ((1024, 1024), (1025, 1025), (1025, 4096), (2000, 4096), (3000, 2999), (5000, 8192))
+                                                  for m, n in ((1, 1), (1, 2), (2, 2), (2, 3))], long_message_fn,
+              'signed message of 1024..5000 bytes x raised stack_max_item_size x quorums up to 2-of-3, every signer order, one outsider signature', nshards=24),
         Block('builder_make_multisig_lock', bcases, builder_fn, 'n<=3 through make_multisig_lock + run_auth_scripts',
               nshards=len(bcases)),
     ]
